@@ -24,11 +24,7 @@ fn parse_case(line: &str) -> Case {
     let mut t = Toks(line.split_whitespace());
     assert_eq!(t.next(), "case");
     let id = t.next().to_string();
-    let partial = match t.next() {
-        "strict" => false,
-        "partial" => true,
-        other => panic!("bad fallback {other}"),
-    };
+    let partial = interp::fallback_token(t.next());
     let terms = caseparse::parse_terms(&mut t);
     assert_eq!(t.next(), "E");
     let nev: usize = t.num();
